@@ -186,14 +186,14 @@ def _lattice_params(tier):
         return {
             "n_generic": 40,
             "bg": [1e-6, 1e-3, 1e-2, 0.1, 0.3, 1.0, 3.0, 10.0, 1e2, 1e3, 1e4],
-            "mass": [1e-3, 1.0, 1e3],
+            "mass": [1e-5, 1e-3, 1.0, 1e3],
             "angle_div": 12,
             "near_axis": True,
         }
     return {
         "n_generic": 12,
         "bg": [1e-3, 0.1, 1.0, 10.0, 1e3],
-        "mass": [0.1, 1.0, 10.0],
+        "mass": [1e-4, 0.1, 1.0, 10.0],
         "angle_div": 6,
         "near_axis": False,
     }
